@@ -1,5 +1,6 @@
 import MpfVerif.Lemmas.Show
 import MpfVerif.Lemmas.ShowEvents
+import MpfVerif.Lemmas.ShowExact
 /-!
 # C17 — Shows run on schedule without drift and clean up after themselves
 
@@ -11,20 +12,57 @@ be later than the timer's deadline).
 namespace MpfVerif.C17
 open MpfVerif.Show
 
-/-- No drift: a show played at `t0` from step `start` executes, under *every* sequence of timer callbacks (any number,
-at any clock times — late callbacks included, callbacks that are not yet due do nothing), a prefix of the absolute
-schedule: step `start-1` with start time `t0`, then cyclically each next step with start time
+/-- No drift: a show played (without `sync_ms`) at `t0` with any `start_step` (1-based, negative = counted from the end,
+0 or beyond the end = first step, see `firstIdx`) executes, under *every* sequence of timer callbacks (any number, at any
+clock times — late callbacks included, callbacks that are not yet due do nothing), a prefix of the absolute schedule:
+the first step with start time `t0`, then cyclically each next step with start time
 `t0 + Σ (durations of the steps executed before) * spDen / spNum` — for every loop count (a finite loop count only cuts
-the schedule off) and whether or not the show is set to manual advance (then only the first step runs). -/
-theorem kth_step_time (durs : List Nat) (num den : Nat) (loops : Option Nat) (start : Nat) (manual : Bool) (t0 : Nat)
-    (ts : List Nat) (h1 : 1 ≤ start) (h2 : start ≤ durs.length) :
-    effs (run {} (.play durs num den loops start true manual t0 :: fires ts)).2 <+:
-      sched durs num den (ts.length + 1) (start - 1) t0 := by
+the schedule off; a hold step `duration: -1` (0 here) ends it) and whether or not the show is set to manual advance (then
+only the first step runs). -/
+theorem kth_step_time (durs : List Nat) (num den : Nat) (loops : Option Nat) (start : Int) (manual : Bool) (t0 : Nat)
+    (ts : List Nat) (hlen : 0 < durs.length) :
+    effs (run {} (.play durs num den loops start true manual 0 t0 :: fires ts)).2 <+:
+      sched durs num den (ts.length + 1) (firstIdx start durs.length) t0 := by
   simp only [run, step]
   have hstop : stop (setNow ({} : RS) t0) = (setNow {} t0, []) := by unfold stop; simp [setNow]
   rw [hstop]
-  simp only [List.nil_append]
-  exact first_step durs num den ts _ start t0 h1 h2 rfl rfl rfl rfl rfl rfl (by simp [setNow])
+  simp only [List.nil_append, startPlay, if_true, Bool.not_true]
+  exact first_step durs num den ts _ [.played] start t0 hlen rfl rfl rfl rfl rfl rfl rfl (by simp [setNow])
+
+/-- Exact rational arithmetic, any speed: times are numerators over one common denominator (the unit).  When the unit
+is fine enough for the speed `num/den` (`Exact`: every `dur * den / num` is an integer — the driver refuses anything
+else, so the correspondence never runs the model outside this hypothesis), the `k`-th scheduled step is step
+`idxAt k i` and its start time `T` satisfies `T * num = t * num + (Σ_{j<k} dur_j) * den`: *exactly*
+`t + (Σ durations) / (num/den)`, the sum taken first and divided once — no per-step rounding, hence no drift, for
+speeds like 3, 3/10, 3/2 and step times like 100 ms / 330 ms, over any number of loops. -/
+theorem kth_step_time_exact (durs : List Nat) (num den : Nat) (h : Exact durs num den) (k n i t : Nat) (hk : k < n) :
+    ∃ T, (sched durs num den n i t)[k]? = some (Obs.eff (idxAt durs.length k i) T) ∧
+      T * num = t * num + durSum durs k i * den :=
+  sched_kth durs num den h k n i t hk
+
+/-- `sync_ms`: the synchronised start time is a multiple of `sync`, strictly after the play request (never in the
+past, never now), at most one period away, and it is the least such multiple. -/
+theorem sync_start_is_next_multiple (sync t : Nat) (hs : 0 < sync) :
+    sync ∣ syncTime sync t ∧ t < syncTime sync t ∧ syncTime sync t ≤ t + sync ∧
+      ∀ m, sync ∣ m → t < m → syncTime sync t ≤ m :=
+  ⟨syncTime_dvd sync t, (syncTime_bounds sync t hs).1, (syncTime_bounds sync t hs).2,
+    fun m hd hm => syncTime_least sync t m hs hd hm⟩
+
+/-- A show played with `sync_ms` plays nothing before its start timer runs and then follows the absolute schedule
+anchored at the *synchronised* time (not at the time the late timer callback happens to run): no drift against the
+sync grid, for every sequence of timer callbacks. -/
+theorem sync_no_drift (durs : List Nat) (num den : Nat) (loops : Option Nat) (start : Int) (manual : Bool)
+    (sync t0 : Nat) (ts : List Nat) (hlen : 0 < durs.length) (hsync : sync ≠ 0) :
+    effs (run {} (.play durs num den loops start true manual sync t0 :: fires ts)).2 <+:
+      sched durs num den ts.length (firstIdx start durs.length) (syncTime sync t0) := by
+  simp only [run, step]
+  have hstop : stop (setNow ({} : RS) t0) = (setNow {} t0, []) := by unfold stop; simp [setNow]
+  rw [hstop]
+  simp only [List.nil_append, startPlay, if_neg hsync]
+  have hnow : (setNow ({} : RS) t0).now = t0 := by simp [setNow]
+  rw [hnow]
+  exact fires_pending durs num den start (syncTime sync t0) hlen ts _ rfl rfl rfl rfl rfl rfl
+    rfl ⟨0, by simp [setNow]⟩ rfl
 
 /-- The schedule is the absolute one: the start time of the k-th scheduled step is `t0` plus the sum of the preceding
 steps' durations divided by the speed (closed form of `sched`). -/
@@ -71,13 +109,15 @@ theorem context_removed (ops : List Op) (h : (run {} ops).1.stopped = true) : (r
   ((run_inv ops {} init_inv).2 h).2
 
 /-- Events once: for every show and every sequence of requests and timer callbacks following its `play`, `played`
-is posted exactly once, `stopped` exactly once if the instance ends up stopped (by request or by completing) and not
+is posted at most once — exactly once when the show is played without `sync_ms`; with `sync_ms` exactly when it was
+started (`started`: its start timer ran, or a resume/advance/step_back request started it before that; a show that is
+stopped before its synchronised start never posts it) —, `stopped` exactly once if the instance ends up stopped (by request or by completing) and not
 at all while it runs, `completed` at most once and only together with `stopped`, and `looped` exactly once per consumed
 loop (granted loops = `looped` events + loops left; for an endless show every wrap posts one, see `looped_with_wrap`). -/
-theorem events_once (durs : List Nat) (num den : Nat) (loops : Option Nat) (start : Nat) (running manual : Bool) (t : Nat)
-    (rest : List Op) (hp : ∀ o ∈ rest, o.isPlay = false) :
-    let r := run {} (.play durs num den loops start running manual t :: rest)
-    cntE .played r.2 = 1 ∧
+theorem events_once (durs : List Nat) (num den : Nat) (loops : Option Nat) (start : Int) (running manual : Bool)
+    (sync t : Nat) (rest : List Op) (hp : ∀ o ∈ rest, o.isPlay = false) :
+    let r := run {} (.play durs num den loops start running manual sync t :: rest)
+    cntE .played r.2 = (if r.1.started then 1 else 0) ∧ (sync = 0 → cntE .played r.2 = 1) ∧
     cntE .stopped r.2 = (if r.1.stopped then 1 else 0) ∧
     cntE .completed r.2 ≤ cntE .stopped r.2 ∧
     (match loops, r.1.loops with
@@ -85,7 +125,20 @@ theorem events_once (durs : List Nat) (num den : Nat) (loops : Option Nat) (star
       | none, none => True
       | _, _ => False) := by
   simp only [run]
-  exact run_ledger loops rest _ _ hp (play_ledger durs num den loops start running manual t)
+  have h0 := play_ledger durs num den loops start running manual sync t
+  have h := run_ledger loops rest _ _ hp h0
+  refine ⟨h.1, ?_, h.2.1, h.2.2.1, h.2.2.2.1⟩
+  intro hs
+  have h1 : cntE .played (step {} (.play durs num den loops start running manual sync t)).2 = 1 := by
+    rw [h0.1]
+    have : (step {} (.play durs num den loops start running manual sync t)).1.started = true := by
+      subst hs
+      simp only [step, startPlay, if_true]
+      exact (runNext_ghost _ _ _).1
+    rw [this]; rfl
+  have h2 := h.1
+  rw [cntE_append, h1] at h2 ⊢
+  split at h2 <;> omega
 
 /-- `looped` is posted exactly when a step wraps around: every `_run_next_step` of a running show emits either one step
 `eff i t` followed by the request's events and — iff the index wrapped to step 0, consuming one loop — `looped`; or,
@@ -95,13 +148,13 @@ theorem looped_with_wrap (s : RS) (post : List Ev) (pa : Bool) (hs : s.stopped =
 
 /-- The stopping step: the one request or timer callback that stops a running show emits, in this order, the clean-up
 of its context (if it played anything), `stopped`, and then either nothing (a stop request) or the request's own
-acknowledgement followed by `completed` (the show ran out of loops) — the order in which `RunningShow` posts them:
+acknowledgement (`played` for a show that completes in its very first step) followed by `completed` (the show ran out of loops) — the order in which `RunningShow` posts them:
 `stop()` first, `events_when_completed` last.  Together with `events_once` (exactly one `stopped` in the whole trace)
 and `no_effect_after_stop` this fixes the position of every event. -/
 theorem stopping_step_order (s : RS) (o : Op) (hp : o.isPlay = false) (hs : s.stopped = false)
     (h : (step s o).1.stopped = true) :
     ∃ pre post, (step s o).2 = pre ++ Obs.ev .stopped :: post ∧ (∀ x ∈ pre, x = Obs.clr) ∧
-      (post = [] ∨ ∃ acks, post = acks.map Obs.ev ++ [Obs.ev .completed] ∧ IsAck acks) :=
+      (post = [] ∨ ∃ acks, post = acks.map Obs.ev ++ [Obs.ev .completed] ∧ IsAck' acks) :=
   step_stop_shape s o hp hs h
 
 /-- …and nothing but `paused` acknowledgements after `stopped`. -/
@@ -114,12 +167,25 @@ theorem nothing_after_stopped (ops : List Op) (s : RS) (hs : s.stopped = true) (
 
 /-! ### the hypotheses are satisfiable on non-trivial runs (kernel evaluation) -/
 
-example : effs (run {} (.play [8, 16, 8] 2 1 none 2 true false 64 :: fires [72, 76, 81, 200, 201])).2 =
+example : effs (run {} (.play [8, 16, 8] 2 1 none 2 true false 0 64 :: fires [72, 76, 81, 200, 201])).2 =
     [.eff 1 64, .eff 2 72, .eff 0 76, .eff 1 80, .eff 2 88, .eff 0 92] := by decide
-example : (run {} [.play [8, 8] 1 1 (some 0) 1 true false 64, .fire 72, .fire 80, .back 90, .fire 200]).1.stopped = true := by
+example : (run {} [.play [8, 8] 1 1 (some 0) 1 true false 0 64, .fire 72, .fire 80, .back 90, .fire 200]).1.stopped = true := by
   decide
-example : (run {} [.play [8, 8] 1 1 none 1 true false 64, .resume 66, .stop 70]).1.timers = [] := by decide
-example : (run {} [.play [8, 8] 1 1 (some 1) 1 true false 64, .fire 72, .fire 80, .fire 88, .fire 96, .back 99]).2 =
+example : (run {} [.play [8, 8] 1 1 none 1 true false 0 64, .resume 66, .stop 70]).1.timers = [] := by decide
+example : (run {} [.play [8, 8] 1 1 (some 1) 1 true false 0 64, .fire 72, .fire 80, .fire 88, .fire 96, .back 99]).2 =
     [.eff 0 64, .ev .played, .eff 1 72, .eff 0 80, .ev .looped, .eff 1 88, .clr, .ev .stopped, .ev .completed] := by decide
+-- speed 3 with step times 100 ms / 330 ms in units of 1/3 ms: 100 and 110 units, exact; the third loop starts at 3 * 210
+example : Exact [300, 990] 3 1 := (exactFor_iff _ _ _).mp (by decide)
+example : effs (run {} (.play [300, 990] 3 1 none 1 true false 0 1000 :: fires [1100, 1430, 1530, 1860, 1960, 2290])).2 =
+    [.eff 0 1000, .eff 1 1100, .eff 0 1430, .eff 1 1530, .eff 0 1860, .eff 1 1960, .eff 0 2290] := by decide
+-- sync 500 at t = 1125: nothing before 1500, then the schedule from 1500 although the start callback is late (1503)
+example : (run {} (.play [100, 330] 1 1 none (-1) true false 500 1125 :: fires [1400, 1503, 1830])).2 =
+    [.eff 1 1500, .ev .played, .eff 0 1830, .ev .looped] := by decide
+example : syncTime 500 1500 = 2000 := by decide
+-- start_step beyond the end with loops 0: the show completes at once
+example : (run {} [.play [8, 8] 1 1 (some 0) 5 true false 0 64]).2 = [.ev .stopped, .ev .played, .ev .completed] := by decide
+-- a synchronised show advanced before its start is started by the request: `played` is posted (the repaired code)
+example : (run {} [.play [8, 8] 1 1 none 1 true false 32 65, .advance 70, .fire 78, .stop 80]).2 =
+    [.eff 0 70, .ev .played, .eff 1 78, .clr, .ev .stopped] := by decide
 
 end MpfVerif.C17
